@@ -48,14 +48,20 @@ EmitPlainName == /\ pc = "plain"
                  /\ idx' = idx + 1 /\ pc' = "begin"
                  /\ UNCHANGED <<items, origin, refs, li, starts>>
 
-EmitPointer == /\ pc = "loop" /\ li <= Len(Cur.labels) /\ Lookup(Suffix) # 0
-               /\ LET p == refs[Lookup(Suffix)][2] % (PtrLimit + 1) IN      \* "as u16 | 0xC000": truncated
-                  out' = out \o <<192 + p \div 256, p % 256>>
+\* the table part of the two loop arms, as functions of the position the writer reports (the step-level
+\* trace specification TraceCompSteps.tla binds exactly these to the code's hook events)
+CanPointer == pc = "loop" /\ li <= Len(Cur.labels) /\ Lookup(Suffix) # 0
+PointerValue == refs[Lookup(Suffix)][2] % (PtrLimit + 1)          \* "as u16 | 0xC000": truncated
+CanLabel == pc = "loop" /\ li <= Len(Cur.labels) /\ Lookup(Suffix) = 0
+TableAfterLabel(position) == IF Guard /\ position > PtrLimit THEN refs ELSE Append(refs, <<Suffix, position>>)
+
+EmitPointer == /\ CanPointer
+               /\ out' = out \o <<192 + PointerValue \div 256, PointerValue % 256>>
                /\ idx' = idx + 1 /\ pc' = "begin"
                /\ UNCHANGED <<items, origin, refs, li, starts>>
 
-EmitLabel == /\ pc = "loop" /\ li <= Len(Cur.labels) /\ Lookup(Suffix) = 0
-             /\ refs' = IF Guard /\ StreamPos > PtrLimit THEN refs ELSE Append(refs, <<Suffix, StreamPos>>)
+EmitLabel == /\ CanLabel
+             /\ refs' = TableAfterLabel(StreamPos)
              /\ out' = out \o <<Len(Cur.labels[li])>> \o Cur.labels[li]
              /\ li' = li + 1
              /\ UNCHANGED <<items, origin, idx, starts, pc>>
